@@ -130,7 +130,8 @@ func genRequest(t *rapid.T, c Chain, allowHEAD bool) lab.RawRequest {
 		r.Method = rapid.SampledFrom(ms).Draw(t, "method")
 		return r
 	}
-	r.Method = rapid.SampledFrom([]string{"POST", "PUT", "PATCH"}).Draw(t, "method")
+	// a request body is legal with every method; one body in four comes with a method that usually has none
+	r.Method = rapid.SampledFrom([]string{"POST", "PUT", "PATCH", "POST", "PUT", "PATCH", "POST", "PUT", "PATCH", "DELETE", "GET", "OPTIONS"}).Draw(t, "method")
 	n := genLen(t, c.EffL(), c.L == 0, "req")
 	r.Body = payload(n, byte(rapid.IntRange(0, 255).Draw(t, "reqsalt")))
 	r.BodyLen = n
